@@ -26,8 +26,9 @@ def main():
     scale = arg("--scale", "0.1")
     only = arg("--only")
     checks = (arg("--checks") or ",".join(PROPS)).split(",")
-    out_path = arg("--out", os.path.join(BASE, "seeded", "cross_matrix.json"))
-    names = sorted(d for d in os.listdir(os.path.join(BASE, "seeded")) if os.path.isdir(os.path.join(BASE, "seeded", d)))
+    sub = arg("--dir", "seeded")  # "seeded" (property-breaking changes) or "preserving" (behaviour-preserving changes)
+    out_path = arg("--out", os.path.join(BASE, sub, "cross_matrix.json"))
+    names = sorted(d for d in os.listdir(os.path.join(BASE, sub)) if os.path.isdir(os.path.join(BASE, sub, d)))
     if only:
         names = [n for n in names if n in only.split(",")]
     matrix = {}
@@ -43,13 +44,13 @@ def main():
     def one(name):
         if name in matrix and all(c in matrix[name] for c in checks):
             return
-        wt = f"/tmp/xm_{name}"
+        wt = f"/tmp/xm_{sub}_{name}"
         sh(["git", "-C", "/repo", "worktree", "remove", "--force", wt])
         shutil.rmtree(wt, ignore_errors=True)
         with lock:
             sh(["git", "-C", "/repo", "worktree", "add", "-q", "--detach", wt, "HEAD"])
         try:
-            r = sh(["git", "-C", wt, "apply", os.path.join(BASE, "seeded", name, "patch.diff")])
+            r = sh(["git", "-C", wt, "apply", os.path.join(BASE, sub, name, "patch.diff")])
             if r.returncode != 0:
                 print(name, "patch does not apply", r.stderr[:200], flush=True)
                 return
